@@ -131,6 +131,9 @@ var wSuffixAlphabet = []wop{
 
 func evJSON(e wev) string {
 	e.Key, e.Calls = "", 0
+	// the size of the underlying allocation is not behaviour: a grown buffer keeps the larger header
+	// reservation where a new writer of the same Size() reserves less
+	e.St.Raw = 0
 	b, _ := json.Marshal(e)
 	return string(b)
 }
@@ -164,16 +167,26 @@ func c18w(c *ctx) {
 	resets := []wop{{"Reset", "server/1", ""}, {"Reset", "client/2", ""}, {"PutGet", "server/2", ""}, {"ResetOp", "1", ""}, {"ResetOp", "2", ""}}
 	n := 0
 	for ci, cf := range cfgs {
-		seqs(wHistAlphabet, depth, func(h []wop) {
+		d := depth
+		if ci > 1 {
+			d = 2 // (budget: the two larger configurations with depth-2 histories)
+		}
+		seqs(wHistAlphabet, d, func(h []wop) {
 			for _, fa := range []int{0, 1, 2} {
 				for ri, rs := range resets {
 					n++
 					if !c.thorough && (n%3 != 0) && fa != 1 {
 						continue
 					}
+					if c.thorough && rs.Name == "ResetOp" && (ci > 1 || fa == 2) {
+						continue // (budget: ResetOp on the two small configurations, destination healthy or failing at write 1)
+					}
 					seqs(wSuffixAlphabet, 2, func(sfx []wop) {
 						if !c.thorough && (opsKey(sfx) != "Wr1,Wr1") && (opsKey(sfx) != "Fl,Wr1") && (n+len(opsKey(sfx)))%5 != 0 {
 							return
+						}
+						if c.thorough && (opsKey(sfx) != "Wr1,Wr1") && (opsKey(sfx) != "Fl,Wr1") && (n+len(opsKey(sfx)))%2 != 0 {
+							return // (budget: every second suffix, rotating with the history)
 						}
 						ops := append(append([]wop(nil), h...), rs)
 						ops = append(ops, sfx...)
